@@ -1,16 +1,22 @@
 """C05 -- text assertions and text transformers mean what the reference manual says (DESIGN.md 3/C05).
-A text is any object satisfying the interface contract I_SSC of C14 (contracts/C14_text_value.py)."""
+A text is any object satisfying the interface contract I_SSC of C14 (contracts/C14_text_value.py): one ghost
+text `txt`; as_str == txt; as_lines yields split_nl(txt); the file decodes to txt.  "Whether the text is a
+file, the output of the action to check, or a literal" is C14's obligation."""
 try:
     import z3
 except ImportError:      # replays run under the repository's interpreter, without z3
     z3 = None
 
 from pyvc.api import (Module, Interface, Method, Iface, Inst, Int, Nat, Pos, Bool, Str, Opt, OneOf, Const, Union,
-                      ListOf, MListOf, IterOf, FixedList, Any_, Custom, new_opaque, assume_pred)
+                      ListOf, MListOf, IterOf, FixedList, Any_, Custom, InPlace, InPlaceBy, new_opaque, assume_pred)
 from pyvc.values import SStr, SList
-from contracts.common import implies, iff, forall_range, exists_range, prefix_join, join_of, peek, is_find
+from contracts.common import implies, iff, forall_range, exists_range, prefix_join, join_of, peek, is_find, is_opaque
 from contracts import text_spec
-from contracts.text_spec import NL, is_line, is_split_nl, split_nl
+from contracts.text_spec import NL, is_line, is_split_nl, split_nl, lines_of, nlines
+from contracts.C14_text_value import SSCI, SSI, SSC, SS, PathI, file_text, txt_of, ss_txt, freeze_events
+
+from exactly_lib.type_val_prims.matcher.matching_result import MatchingResult
+from exactly_lib.impls.types.string_matcher.impl import equality, emptiness, num_lines
 
 M = Module('C05')
 text_spec.register_models(M)
@@ -70,3 +76,182 @@ M.loop(P_REPL + ':_lines_iterator_from_replacements', 0, invariant=_inv_outer,
        modifies=dict(yielded='len', segments=MListOf(Str), sub_l='local', nli='local', line='local'))
 M.loop(P_REPL + ':_lines_iterator_from_replacements', 1, invariant=_inv_inner,
        modifies=dict(yielded='len', segments=MListOf(Str), sub_l=Str, nli=Int))
+
+
+# ------------------------------------------------------------------------------ reading a prefix of a text
+# `read_lines_as_str__w_minimum_num_chars(m, lines)`: whole lines are read from the start until at least m
+# characters have been read.  With L = the text that the lines make up: the result (c, more) is
+#   c == L and not more                 if |L| <  m
+#   |c| >= m and more, c a prefix of L   if |L| >= m
+
+P_RL = 'exactly_lib.util.str_.read_lines'
+P_SS = 'exactly_lib.type_val_prims.string_source.string_source'
+
+
+def prefix_len_lemma(xs, i):
+    """TRUSTED LEMMA about the spec function prefix_join (induction over the list; bounded-checked in the check
+    `lemmas`): the joined prefix of i items is a prefix of the join of all, in particular not longer."""
+    return implies(0 <= i <= len(xs), join_of(xs).startswith(prefix_join(xs, i)))
+
+
+def _m_prefix_len_lemma(interp, args, kwargs):
+    from pyvc import texts
+    from pyvc.values import to_z3
+    xs, i = args
+    whole = to_z3(texts.join_all(interp, xs))
+    part = to_z3(texts.prefix_join(interp, xs, i))
+    ti = to_z3(i)
+    interp.st._add(z3.Implies(z3.And(ti >= 0, ti <= xs.length),
+                              z3.And(z3.PrefixOf(part, whole), z3.Length(part) <= z3.Length(whole))))
+    return True
+
+
+M.model(prefix_len_lemma, _m_prefix_len_lemma)
+
+def _advance_iter(interp, it, tag):
+    """the callee consumes some of the iterator: its position afterwards is arbitrary, not before the old one"""
+    from pyvc import models
+    from pyvc.values import to_z3, wrap
+    it = models.as_siter(interp, it)
+    p0 = to_z3(it.pos) if not isinstance(it.pos, int) else z3.IntVal(it.pos)
+    p1 = interp.st.fresh_int(tag + '.pos')
+    interp.st.assume(z3.And(p1 >= p0, p1 <= it.xs.length))
+    it.pos = wrap(p1)
+
+
+M.contract(P_RL + ':read_lines_as_str__w_minimum_num_chars',
+           params=dict(min_num_chars_to_read=Int, lines=IterOf(Str)),
+           requires=lambda min_num_chars_to_read: min_num_chars_to_read >= 1,
+           returns=FixedList(Str, Bool, as_tuple=True),
+           modifies={'lines': InPlaceBy(_advance_iter)},
+           ensures={
+               'whole lines from the start': lambda lines, result: result[0] == prefix_join(lines.xs, lines.pos),
+               'a short text is read completely, and is known to be complete':
+                   lambda lines, min_num_chars_to_read, result:
+                   prefix_len_lemma(lines.xs, lines.pos)
+                   and implies(len(join_of(lines.xs)) < min_num_chars_to_read,
+                               result[0] == join_of(lines.xs) and not result[1]),
+               'of a long text at least the minimum is read, and it is reported as possibly longer':
+                   lambda lines, min_num_chars_to_read, result:
+                   prefix_len_lemma(lines.xs, lines.pos)
+                   and implies(len(join_of(lines.xs)) >= min_num_chars_to_read,
+                               len(result[0]) >= min_num_chars_to_read and result[1]),
+               'no line more than needed': lambda lines, min_num_chars_to_read:
+               lines.pos == 0 or len(prefix_join(lines.xs, lines.pos - 1)) < min_num_chars_to_read,
+           }, raises_only=())
+M.loop(P_RL + ':read_lines_as_str__w_minimum_num_chars', 0,
+       invariant=lambda _i, _xs, actual_lines, actual_read, min_num_chars_to_read:
+       join_of(actual_lines) == prefix_join(_xs, _i) and actual_read == len(prefix_join(_xs, _i))
+       and actual_read < min_num_chars_to_read and len(actual_lines) == _i,
+       modifies=dict(actual_lines=MListOf(Str), actual_read=Int, line='local'))
+
+M.contract(P_SS + ':read_lines_as_str__w_minimum_num_chars',
+           params=dict(min_num_chars_to_read=Int, source=SSC),
+           requires=lambda min_num_chars_to_read: min_num_chars_to_read >= 1,
+           returns=FixedList(Str, Bool, as_tuple=True),
+           ensures={
+               'a prefix of the text': lambda source, result: source.txt.startswith(result[0]),
+               'a short text is read completely': lambda source, min_num_chars_to_read, result:
+               implies(len(source.txt) < min_num_chars_to_read, result[0] == source.txt and not result[1]),
+               'of a long text at least the minimum is read': lambda source, min_num_chars_to_read, result:
+               implies(len(source.txt) >= min_num_chars_to_read,
+                       len(result[0]) >= min_num_chars_to_read and result[1]),
+           }, raises_only=())
+
+
+# ------------------------------------------------------------------------------ equals
+# Each of the four strategies of `equals` (chosen by where the two texts come from) gives True exactly when
+# the two texts are equal.
+
+P_EQ = 'exactly_lib.impls.types.string_matcher.impl.equality'
+
+RESULT_TRUE = Inst(MatchingResult, _value=Const(True), _trace=Any_)
+
+
+def _no_match_result(interp, self, args, kwargs):
+    r = object.__new__(MatchingResult)
+    r._value = False
+    r._trace = Any_.make(interp, 'trace')
+    return r
+
+
+class NoMatchBuilderI(Interface):
+    """build_result_for_no_match: builds a MatchingResult whose value is False from details
+    (`_EqualityStringMatcher._result_for_no_match`, proved below)"""
+    methods = {'__call__': Method(model=_no_match_result)}
+
+
+APPLIER = Inst(equality._ApplierWExtDepsCases, _build_result_for_no_match=Iface(NoMatchBuilderI),
+               _result_for_match=RESULT_TRUE, _expected=SS, _expected_unfrozen_has_ext_deps=Bool)
+
+
+def _texts_equal(self, actual, result):
+    return result.value == (self._expected.txt == actual.txt)
+
+
+M.contract(P_EQ + ':_diff_detail', params=dict(get_actual_lines=Any_, get_expected_lines=Any_), returns=Any_,
+           trusted=True)
+M.trust('equality._diff_detail (difflib.unified_diff over the lines of both texts) only builds a detail of the error '
+        'message of a failed `equals`; assumed to return: it is not part of the verdict')
+
+M.contract(P_EQ + ':_min_num_chars_to_read', params=dict(operand=Str), returns=Int,
+           ensures={'more than the operand has: a text that is read that far and still equal is equal':
+                    lambda operand, result: result >= len(operand) + 1},
+           raises_only=())
+
+for _strategy in ('_ext_deps__none', '_ext_deps__only_actual', '_ext_deps__only_expected'):
+    M.contract('%s:_ApplierWExtDepsCases.%s' % (P_EQ, _strategy), params=dict(self=APPLIER, actual=SSC),
+               returns=Inst(MatchingResult, _value=Bool, _trace=Any_),
+               ensures={'True iff the two texts are equal': _texts_equal}, raises_only=())
+
+M.contract(P_EQ + ':_ApplierWExtDepsCases._freeze_and_read_expected_header',
+           params=dict(self=APPLIER, min_num_chars=Int), requires=lambda min_num_chars: min_num_chars >= 1,
+           returns=FixedList(Str, Bool, as_tuple=True),
+           ensures={
+               'a prefix of the expected text': lambda self, result: self._expected.txt.startswith(result[0]),
+               'a short text is read completely': lambda self, min_num_chars, result:
+               implies(len(self._expected.txt) < min_num_chars, result[0] == self._expected.txt and not result[1]),
+               'of a long text at least the minimum is read': lambda self, min_num_chars, result:
+               implies(len(self._expected.txt) >= min_num_chars, len(result[0]) >= min_num_chars and result[1]),
+           }, raises_only=())
+
+BOTH_HANDLER = Inst(equality._ExtDepsOfBothHandler, _result_for_match=RESULT_TRUE,
+                    _build_result_for_no_match=Iface(NoMatchBuilderI), _expected=Iface(PathI))
+
+M.contract(P_EQ + ':_ExtDepsOfBothHandler.match', params=dict(self=BOTH_HANDLER, actual=SSC),
+           returns=Inst(MatchingResult, _value=Bool, _trace=Any_),
+           ensures={'True iff the two texts are equal (relative to _do_compare, see C14)': lambda self, actual, result:
+                    result.value == (file_text(self._expected) == actual.txt)},
+           raises_only=())
+
+M.contract(P_EQ + ':_ApplierWExtDepsCases.match', params=dict(self=APPLIER, actual=SSC),
+           returns=Inst(MatchingResult, _value=Bool, _trace=Any_),
+           ensures={'True iff the two texts are equal, whichever strategy is chosen': _texts_equal,
+                    'the expected text is frozen (it is read more than once)': lambda self, trace:
+                    len(freeze_events(trace, self._expected)) == 1},
+           raises_only=())
+
+
+# ------------------------------------------------------------------------------ is-empty, num-lines
+
+P_EMPTY = 'exactly_lib.impls.types.string_matcher.impl.emptiness'
+P_NUM_LINES = 'exactly_lib.impls.types.string_matcher.impl.num_lines'
+
+EMPTINESS = Inst(emptiness.EmptinessStringMatcher, _structure_renderer=Any_)
+
+M.contract(P_EMPTY + ':EmptinessStringMatcher._first_line', params=dict(file_to_check=SS), returns=Str,
+           ensures={'empty iff the text is empty': lambda file_to_check, result:
+                    iff(result == '', file_to_check.txt == '')},
+           raises_only=())
+
+M.contract(P_EMPTY + ':EmptinessStringMatcher.matches_w_trace', params=dict(self=EMPTINESS, model=SS),
+           ensures={'True iff the text is empty': lambda model, result: result.value == (model.txt == '')},
+           raises_only=())
+
+M.contract(P_NUM_LINES + ':_PropertyGetter.get_from',
+           params=dict(self=Inst(num_lines._PropertyGetter, _structure_renderer=Any_), model=SS), returns=Int,
+           ensures={'the number of lines of the text': lambda model, result: result == nlines(model.txt)},
+           raises_only=())
+M.loop(P_EMPTY + ':EmptinessStringMatcher._first_line', 0, invariant=lambda _i: _i == 0, modifies={'line': 'local'})
+M.loop(P_NUM_LINES + ':_PropertyGetter.get_from', 0, invariant=lambda _i, ret_val: ret_val == _i,
+       modifies=dict(ret_val=Int, _='local'))
